@@ -9,6 +9,8 @@ def main():
     if '--fn' in sys.argv:
         extra = ['--verify-root', '--verify-function', sys.argv[sys.argv.index('--fn') + 1]]
     r = run_unit('units/%s.rs' % name, kf_on='--strict' not in sys.argv, vacuity='--vac' in sys.argv, extra_args=extra)
+    if extra and r.status == 'failed' and r.errors == 0 and not r.failures:
+        r.status = 'ok(partial: --fn)'
     print('status=%s verified=%d errors=%d smt=%dms total=%dms wall=%.1fs %s' % (r.status, r.verified, r.errors, r.smt_ms, r.total_ms, r.wall_s, r.reason))
     if r.changed_items:
         print('ITEMS DIFFER FROM STORED COPY:', r.changed_items)
